@@ -51,6 +51,11 @@ def _guarded(check):
     input inside the property's domain, is a violation (clause 'library-exception'), not a harness error.
     Exceptions raised in harness code stay harness errors."""
     def run(case):
+        from . import build
+        try:
+            build.set_usage(int(digest(case)[:4], 16) >> 3)
+        except Exception:      # noqa: BLE001
+            build.set_usage(0)
         try:
             return check(case)
         except (PropertyViolation, HarnessError, Discard):
